@@ -11,7 +11,9 @@ PROP = "C09"
 BIN = "/verif/bin/c09"
 RULE = ("PAGofMAG(n): the PAG (computed by the extracted Coq spec pag_of_mag from the definition) of every valid MAG without "
         "undirected edges on n<=3 (quick) / n<=4 (thorough) nodes; structural clauses: every mark graph MARKS(n) n<=3 over the ten "
-        "per-pair kinds (none,->,<-,<->,--,o-o,o->,<-o,-o,o-) and seeded random ones n<=7; distinct by canonical PAG; "
+        "per-pair kinds (none,->,<-,<->,--,o-o,o->,<-o,-o,o-) and seeded random ones n<=7; all-circle PAGs on connected chordal "
+        "skeletons with 5-7 nodes (paths, triangle strips, random chordal graphs; PAG of any collider-free DAG orientation), each "
+        "under 30-100 node labelings (permuted, scattered ints) / insertion orders; distinct by canonical PAG; "
         "non-trivial = the PAG has at least one circle mark")
 EXHAUSTIVE = {"quick": "PAGofMAG(n) n<=3; MARKS(n) n<=3", "thorough": "PAGofMAG(n) n<=4; MARKS(n) n<=3"}
 TRUSTED = ["PAG.copy / remove_edge / orient_uncertain_edge, ADMG.add_edge taken at face value",
@@ -75,6 +77,67 @@ def pags_of_mags(n):
     return [(m, _graph(v[1])) for m, v in zip(mags, res) if v[0] == 1]
 
 
+def mcs_order(n, edges):
+    """maximum cardinality search: in a chordal graph the earlier-visited neighbours of every node form a clique"""
+    nb = {v: set() for v in range(n)}
+    for a, b in edges:
+        nb[a].add(b)
+        nb[b].add(a)
+    order, seen = [], set()
+    while len(order) < n:
+        v = max((v for v in range(n) if v not in seen), key=lambda v: (len(nb[v] & seen), -v))
+        order.append(v)
+        seen.add(v)
+    return order
+
+
+def chordal_shapes(rng, tier):
+    """connected chordal graphs on 5-7 nodes: paths, triangle strips, the glued-triangle strip, random chordal graphs"""
+    shapes = []
+    for n in (5, 6, 7):
+        shapes.append(("path%d" % n, n, [(i, i + 1) for i in range(n - 1)]))
+        shapes.append(("strip%d" % n, n, [(i, i + 1) for i in range(n - 1)] + [(i, i + 2) for i in range(n - 2)]))
+    shapes.append(("strip5b", 5, [(0, 2), (0, 4), (1, 2), (1, 3), (1, 4), (2, 4), (3, 4)]))
+    for i in range(14 if tier == "quick" else 60):
+        n = rng.randint(5, 7)
+        edges, nb = [], {0: set()}
+        for v in range(1, n):
+            u = rng.randrange(v)
+            clique = [u]
+            for w in rng.sample(sorted(nb[u]), len(nb[u])):
+                if rng.random() < 0.5 and all(w in nb[c] for c in clique):
+                    clique.append(w)
+            nb[v] = set(clique)
+            for c in clique:
+                nb[c].add(v)
+                edges.append((c, v))
+        shapes.append(("chordal%d" % n, n, edges))
+    return shapes
+
+
+def chordal_cases(rng, tier):
+    """all-circle PAG on a chordal skeleton = PAG of any DAG orientation without unshielded colliders (from an MCS order);
+    every shape under many node labelings (permuted 0..n-1, optionally mapped to scattered ints for the implementation:
+    the visit order of pag_to_mag / the Meek sweep comes from Python sets of label tuples) and insertion orders"""
+    for name, n, edges in chordal_shapes(rng, tier):
+        pos = {v: i for i, v in enumerate(mcs_order(n, edges))}
+        dag = [(a, b) if pos[a] < pos[b] else (b, a) for a, b in edges]
+        reps = (100 if not name.startswith("chordal") else 30) * (1 if tier == "quick" else 3)
+        for r in range(reps):
+            perm = list(range(n))
+            rng.shuffle(perm)
+            es = [(perm[a], perm[b]) for a, b in edges]
+            rng.shuffle(es)
+            g = gr.G(range(n), C=[e for a, b in es for e in ((a, b), (b, a))])
+            mag = gr.G(range(n), D=sorted((perm[a], perm[b]) for a, b in dag))
+            c = {"kind": name, "g": g, "mag": mag, "mode": 1}
+            if r % 2:
+                c["labmap"] = rng.sample(range(1000), n)
+            if r % 3 == 2:
+                c["_order"] = rng.randrange(1000)
+            yield c
+
+
 def gen_cases(tier, rng):
     nmax = 3 if tier == "quick" else 4
     for n in range(1, nmax + 1):
@@ -87,6 +150,7 @@ def gen_cases(tier, rng):
         n = rng.randint(4, 7)
         g = gr.random_kinds_graph(rng, n, gr.MARK_KINDS_EXT, p_edge=rng.choice([0.3, 0.5, 0.7]), acyclic=rng.random() < 0.7)
         yield {"kind": "rand", "g": g, "mode": 0}
+    yield from chordal_cases(rng, tier)
 
 
 def encode(case):
@@ -103,7 +167,11 @@ def decode(case, v):
 
 def run_impl(case):
     from pywhy_graphs.algorithms.pag import pag_to_mag
-    P, lab, inv = gr.to_pag(case["g"], case)
+    lm = case.get("labmap")
+    g = gr.relabel(case["g"], lambda v: lm[v]) if lm else case["g"]
+    back = {x: v for v, x in enumerate(lm)} if lm else None
+    P, lab, inv0 = gr.to_pag(g, case)
+    inv = (lambda x: back[inv0(x)]) if lm else inv0
     before = gr.snapshot(P)
     R = pag_to_mag(P)
     mutated = gr.snapshot(P) != before
